@@ -210,3 +210,24 @@ impl<I: Interner> ParameterEnaVariableExt<I> for ParameterEnaVariable<I> {
         }
     }
 }
+
+/// Verification hooks (add-only; compiled only with `--cfg chalk_verif`): direct access to the two
+/// union-find operations the unifier performs on the table, so that a test harness can put a
+/// table into a prescribed state (classes of unified variables, variables bound to given values).
+#[cfg(chalk_verif)]
+impl<I: Interner> InferenceTable<I> {
+    /// `self.unify.unify_var_var(a, b)`, as `Unifier::unify_var_var` calls it.
+    pub fn verif_unify_var_var(&mut self, a: InferenceVar, b: InferenceVar) {
+        self.unify
+            .unify_var_var(EnaVariable::from(a), EnaVariable::from(b))
+            .expect("we should not be asked to unify two bound things");
+    }
+
+    /// `self.unify.unify_var_value(var, InferenceValue::Bound(value))`, as `relate_var_ty` and
+    /// its lifetime/const counterparts call it (without occurs check or generalization).
+    pub fn verif_bind_var(&mut self, var: InferenceVar, value: GenericArg<I>) {
+        self.unify
+            .unify_var_value(EnaVariable::from(var), InferenceValue::Bound(value))
+            .expect("we should not be asked to unify two bound things");
+    }
+}
